@@ -148,7 +148,7 @@ func (srv *Server) finish(req *Request, outcome string, serial int) {
 	req.Outcome = outcome
 	req.Serial = serial
 	delete(srv.InFlight, req.ID)
-	if outcome != ModeOK && outcome != "aborted" {
+	if outcome != ModeOK && outcome != "aborted" && outcome != "aborted_midbody" {
 		srv.Faults[outcome]++
 	}
 	srv.mu.Unlock()
@@ -207,15 +207,10 @@ func (srv *Server) ServeHTTP(w http.ResponseWriter, r *http.Request) {
 		serial := srv.serial
 		srv.mu.Unlock()
 		code, body := srv.Backend.Answer(req, serial)
-		// mark finished before the bytes leave: the client may proceed in the same window
-		if code/100 == 2 {
-			srv.finish(req, ModeOK, serial)
-		} else {
-			srv.finish(req, fmt.Sprintf("backend%d", code), 0)
-		}
-		w.Header().Set("Content-Type", "application/json")
-		w.WriteHeader(code)
-		if f.SplitBody && len(body) > 8 {
+		if f.SplitBody && len(body) > 8 && code/100 == 2 {
+			// delivered in two parts; the request only counts as answered once the second part is out
+			w.Header().Set("Content-Type", "application/json")
+			w.WriteHeader(code)
 			half := len(body) / 2
 			_, _ = w.Write([]byte(body[:half]))
 			if fl, ok := w.(http.Flusher); ok {
@@ -225,9 +220,22 @@ func (srv *Server) ServeHTTP(w http.ResponseWriter, r *http.Request) {
 			srv.Faults["split_body"]++
 			srv.mu.Unlock()
 			srv.S.Yield("srv.body", key)
+			if r.Context().Err() != nil {
+				srv.finish(req, "aborted_midbody", 0)
+				return
+			}
+			srv.finish(req, ModeOK, serial)
 			_, _ = w.Write([]byte(body[half:]))
 			return
 		}
+		// mark finished before the bytes leave: the client may proceed in the same window
+		if code/100 == 2 {
+			srv.finish(req, ModeOK, serial)
+		} else {
+			srv.finish(req, fmt.Sprintf("backend%d", code), 0)
+		}
+		w.Header().Set("Content-Type", "application/json")
+		w.WriteHeader(code)
 		_, _ = w.Write([]byte(body))
 	case ModeHTTP500, ModeHTTP502, ModeHTTP503:
 		srv.finish(req, f.Mode, 0)
